@@ -392,8 +392,11 @@ func (e *Eval) compile(node ast.Node) error {
 		// value, and no clean termination.  Instead we'd walk
 		// off the end of our bytecode array.
 		//
-		if len(e.instructions) == 0 ||
-			code.Opcode(e.instructions[len(e.instructions)-1]) != code.OpReturn {
+		// We must look at the last instruction - not at the last
+		// byte, which might be (half of) an operand that happens
+		// to have the same value as the return-opcode.
+		//
+		if !e.endsWithReturn() {
 			e.emit(code.OpVoid)
 			e.emit(code.OpReturn)
 		}
@@ -898,6 +901,21 @@ func (e *Eval) compile(node ast.Node) error {
 		return fmt.Errorf("unknown node type %T %v", node, node)
 	}
 	return nil
+}
+
+// endsWithReturn reports whether the final instruction of the bytecode
+// which we've generated so far is a return.
+func (e *Eval) endsWithReturn() bool {
+	ip := 0
+	last := -1
+	for ip < len(e.instructions) {
+		last = ip
+		ip += code.Length(code.Opcode(e.instructions[ip]))
+	}
+	if last < 0 {
+		return false
+	}
+	return code.Opcode(e.instructions[last]) == code.OpReturn
 }
 
 // addConstant adds a constant to the pool
